@@ -30,7 +30,7 @@ pub struct EdgeDelete {
 pub struct DeletionQuery {
     pub nodes: Vec<NodeDelete>,
     pub node_log: Vec<NodeDeletionEntry>,
-    pub updated_nodes: Vec<Node>,
+    pub updated_nodes: Vec<NodeDelete>,
     pub edges: Vec<EdgeDelete>,
     pub edge_log: Vec<EdgeDeletionEntry>,
 }
@@ -90,7 +90,11 @@ impl DeletionQuery {
                     }
                     let mut node = *node;
                     node.mdate = date;
-                    deletion_query.updated_nodes.push(node);
+                    deletion_query.updated_nodes.push(NodeDelete {
+                        node,
+                        name: del.name.clone(),
+                        date,
+                    });
                 }
             }
         }
@@ -113,7 +117,7 @@ impl DeletionQuery {
             Edge::delete_dest(&nod.node.id, conn)?;
         }
         for update in &mut self.updated_nodes {
-            update.write(conn, false, &None, &None)?;
+            update.node.write(conn, false, &None, &None)?;
         }
         for log in &mut self.node_log {
             log.write(conn)?;
